@@ -277,7 +277,7 @@ func verifModelBinaryWrite(w io.Writer, order binary.ByteOrder, data any) error 
 //@ requires sb != nil && w != nil && len(sb.mem) <= 0x3fffffffffffff00
 //@ propagates err from (*bufWriter).Write, persistFooter, (*bufio.Writer).Flush [C17]
 //@ assert (*bufWriter).Write#1 : $in == sb.mem [C04]
-//@ assert persistFooter#1 : $numDocs == sb.numDocs && $storedIndexOffset == sb.storedIndexOffset && $fieldsIndexOffset == sb.fieldsIndexOffset && $sectionsIndexOffset == sb.sectionsIndexOffset && $docValueOffset == sb.docValueOffset && $chunkMode == sb.chunkMode && $crcBeforeFooter == sb.memCRC [C04]
+//@ assert persistFooter#1 : $numDocs == sb.numDocs && $storedIndexOffset == sb.storedIndexOffset && $fieldsIndexOffset == sb.fieldsIndexOffset && $sectionsIndexOffset == sb.sectionsIndexOffset && $docValueOffset == sb.docValueOffset && $chunkMode == sb.chunkMode && $crcBeforeFooter == sb.memCRC [C04,C09]
 //@ assert persistFooter#1 : typeis($writerIn, ptr_bufWriter) && payload($writerIn) == br [C04]
 //@ local ensures err == nil ==> !bwDirty(br.w) && !bwErr(br.w) && bwFlushedTo(br.w) == wrBytes(br.w) [C17]
 //@ ensures err == nil ==> n == len(sb.mem) + 52 [C04,C17]
@@ -326,10 +326,11 @@ func verifModelBinaryWrite(w io.Writer, order binary.ByteOrder, data any) error 
 // the merge writes through the buffered writer: its first write error is sticky and surfaces in the checked Flush, which
 // the unchecked writes of the fields section rely on
 //@ assert NewCountHashWriterWithStatsReporter#1 : typeis($w, ptr_bufio_DOT_Writer) && ptr_bufio_DOT_Writer(payload($w)) == br [C17]
-//@ assert persistFooter#1 : typeis($writerIn, ptr_CountHashWriter) && payload($writerIn) == cr && $crcBeforeFooter == cr.crc && $chunkMode == chunkMode && $numDocs == numDocs && $storedIndexOffset == storedIndexOffset && $sectionsIndexOffset == sectionsIndexOffset && $fieldsIndexOffset == sectionsIndexOffset && $docValueOffset == 0 [C04,C05]
+//@ assert persistFooter#1 : typeis($writerIn, ptr_CountHashWriter) && payload($writerIn) == cr && $crcBeforeFooter == cr.crc && $chunkMode == chunkMode && $numDocs == numDocs && $storedIndexOffset == storedIndexOffset && $sectionsIndexOffset == sectionsIndexOffset && $fieldsIndexOffset == sectionsIndexOffset && $docValueOffset == 0 [C04,C05,C09]
 //@ ensures err != nil ==> !fsExists(path) [C17,C18,C19]
 //@ ensures $liveFiles == old($liveFiles) [C17,C18]
 //@ local ensures err == nil ==> fsExists(path) && fileSynced(f) && !fileOpen(f) && !bwDirty(br) && !bwErr(br) && bwFlushedTo(br) == wrBytes(br) [C17,C18]
+//@ ensures err == nil ==> fsExists(path) [C17,C18]
 //@ local ensures err == nil ==> size == uint64(cr.n) [C05]
 //@ ensures old(chanClosed(closeCh)) ==> err != nil [C18]
 //@ local ensures old(chanClosed(closeCh)) && f != nil ==> err == seg.ErrClosed [C18]
@@ -1017,6 +1018,8 @@ func lemma1HitDiscriminator(docNum, normBits uint64) {
 // concurrent merges and searches of the same segment share)
 //@ assert (*docValueReader).iterateAllDocValues#1 : $di != dvIter [C06,C11]
 //@ loop 5 invariant chanClosed(closeCh) == old(chanClosed(closeCh))
+// a field keeps doc values in the merged segment if ANY input has them for it: the flag is only ever raised
+//@ loop 5 step prev(fdvReadersAvailable) ==> fdvReadersAvailable [C06]
 //@ modifies *, ghost chanClosed[closeCh], ghost bmSet, ghost itSet, ghost coderSized
 //@ end
 
@@ -1851,6 +1854,10 @@ func lemmaUvLenRange(a []byte, o int) {}
 //@ loop 1 step 0 <= segmenti && segmenti < len(segmentBases) && typeis(segment, ptr_Segment) && ptr_Segment(payload(segment)) != nil ==> segmentBases[segmenti] == addr(ptr_Segment(payload(segment)).SegmentBase) [C05,C11]
 //@ loop 1 step 0 <= segmenti && segmenti < len(segmentBases) && typeis(segment, ptr_SegmentBase) ==> segmentBases[segmenti] == ptr_SegmentBase(payload(segment)) [C05,C11]
 //@ assert mergeSegmentBases#1 : $segmentBases == segmentBases && $drops == drops && $path == path && $chunkMode == DefaultChunkMode && $closeCh == closeCh [C05,C18]
+// success means the merged file exists - also for an empty list of inputs (a valid empty segment is written); an error
+// means there is no file
+//@ ensures err == nil ==> fsExists(path) [C17]
+//@ ensures err != nil ==> !fsExists(path) [C17,C18]
 //@ end
 
 // ---- C12: thesaurus lookups ----
@@ -2444,6 +2451,8 @@ func lemmaSynonymCodeRoundTrip(synonymID, docID uint32) {
 // the loader rejects a thesaurus only for an empty or unreadable FST or an empty synonym table; every
 // (id, length, bytes) entry the writer can emit - including a zero length, the empty synonym - is accepted
 //@ local ensures e != nil ==> vellumLen == 0 || read <= 0 || err != nil || numSyns == 0 [C12]
+// a thesaurus that fails to load leaves no entry behind (a later caller must get the error too, not a half-built table)
+//@ ensures e != nil ==> (haskey(sc.cache, fieldID) <==> old(haskey(sc.cache, fieldID))) [C11,C12]
 // entries are parsed only up to a count that fits a non-negative int: the writer leaves no table at all for a thesaurus
 // whose definitions all died, and the varint found in its place (2^64-1) must not be taken for a count
 //@ loop 1 invariant i > 0 ==> numSyns <= 0x7fffffffffffffff && int(i) <= int(numSyns) [C12,C13]
